@@ -18,7 +18,7 @@ assumptions = c05.assumptions + ["what a failed write leaves in the file being w
 extra_trusted = c05.extra_trusted
 _enum = None
 
-EXCS = ["RuntimeError", "KeyError", "KeyboardInterrupt", "SystemExit", "GeneratorExit", "CancelMutation"]
+EXCS = ["RuntimeError", "KeyError", "KeyboardInterrupt", "SystemExit", "GeneratorExit", "CancelMutation", "UnicodeEncodeError", "OSError", "AttributeError", "TypeError"]
 BASE_OPS = [["attr", "title", "edited"], ["set", "CREDIT", "x"], ["dupchart"]]
 # earlier attempts on the same file that do not save: an unserialisable value met after other properties were written, a body that raises, a cancelled one
 PRE = [[["set", "CREDIT", "x"], ["badvalue", "GENRE"]], [["attr", "title", "t"], ["raise", "RuntimeError"]], [["dupchart"], ["badvalue", "ZZ"], ["raise", "CancelMutation"]]]
@@ -164,7 +164,10 @@ def impl(c):
                     exitobs = "unobservable"
         except BaseException as e:
             exc = type(e).__name__
+            same_object = e is F.LAST_RAISED[0]
         res = {"exc": exc, "body_exc": body_exc, "files": sc.snapshot(), "entry": entry, "exit": exitobs, "fault_fired": fsys.hits}
+        if body_exc and body_exc != "CancelMutation" and exc is not None:
+            res["same_object"] = same_object
         if pre is not None:
             res["pre"] = pre
         # whatever backup exists must parse to the entry simfile
@@ -283,6 +286,8 @@ def oracle(c, o):
             return "the body raised %s but the file system changed: %s" % (o["body_exc"], sorted(files))
         if o["body_exc"] == "CancelMutation":
             return None if o["exc"] is None else "CancelMutation was not swallowed (%s)" % o["exc"]
+        if o["exc"] == o["body_exc"] and o.get("same_object") is False:
+            return "the %s that escaped is not the object the body raised (it must propagate unchanged)" % o["exc"]
         return None if o["exc"] == o["body_exc"] else "%s raised in the body, %s escaped" % (o["body_exc"], o["exc"])
     if o["exc"] in ("KeyError", "AttributeError", "TypeError", "UnicodeEncodeError"):
         # could not be serialised / encoded: nothing may have been touched
